@@ -12,6 +12,9 @@ import (
 // of points around the capacities the model distinguishes (influx buffer size B, one edge buffer, the whole
 // chain downstream of the TaskMaster's ingest edge).
 func genCase(r *kit.Rand, i int, tier string) (chain, stop, class string, n int) {
+	if r.Chance(1, 5) {
+		return genFork(r)
+	}
 	thorough := tier == "thorough"
 	stop = []string{"task", "close", "delete", "task"}[r.Intn(4)]
 	// ---- chain
@@ -151,6 +154,43 @@ func genCase(r *kit.Rand, i int, tier string) (chain, stop, class string, n int)
 	}
 	if !thorough && n > 2600 && class == "gated" && !r.Chance(1, 3) {
 		n = 2600 - r.Intn(500)
+	}
+	return
+}
+
+// genFork: a fork below `from[,where]` with 2-3 branches declared in a random order: healthy branches with outputs
+// of different speed (httpPost, alert handler queue, influxDBOut buffer) and, in two cases out of three, one
+// branch that fails at run time (first / middle / last declared; on its first message, early, or inside the
+// backlog). The parent's exit path must close EVERY child edge although Close fails on the aborted edge of the
+// failed child. Stops come with the pipeline drained, against blocked outputs (Close) or at once (Close).
+func genFork(r *kit.Rand) (chain, stop, class string, n int) {
+	healthy := []string{"post", "where,post", "alert", "influx:7", "post,where", "where,influx:50"}
+	nb := r.Range(2, 3)
+	var br []string
+	for k := 0; k < nb; k++ {
+		br = append(br, kit.Pick(r, healthy))
+	}
+	hasFail := r.Chance(2, 3)
+	if hasFail {
+		br[r.Intn(nb)] = fmt.Sprintf("fail:%d,%s", kit.Pick(r, []int{0, 3, 40}), kit.Pick(r, []string{"post", "where"}))
+	}
+	prefix := kit.Pick(r, []string{"from", "from,where"})
+	chain = prefix + ";" + strings.Join(br, ";")
+	switch r.Intn(4) {
+	case 0:
+		class, stop, n = "drained", kit.Pick(r, []string{"task", "delete", "close"}), kit.Pick(r, []int{1, 50, 300})
+	case 1:
+		class, stop, n = "immediate", "close", kit.Pick(r, []int{50, 1200})
+	case 2:
+		class, stop, n = "early", kit.Pick(r, []string{"task", "close"}), 0
+	default:
+		class, stop, n = "gated", "close", kit.Pick(r, []int{30, 300})
+		if hasFail {
+			class = "drained"
+		}
+	}
+	if strings.Contains(chain, "alert") && n > 300 {
+		n = 300
 	}
 	return
 }
